@@ -152,7 +152,8 @@ def emit (root cur : Nat) : Expr F → LState F → LState F
   | .nested id, s =>
     let j := s.jumps.size
     ((s.pushJump 0).pushConst .put (.expr j)).pushRoot ⟨.ref id, j, [(.endExpression, none)], j⟩
-  | .emptyNested, s => s.pushConst .put (.expr root)
+  -- `{ }` names the expression body it is written in (build.rs after commit df89d39), not the root being laid out
+  | .emptyNested, s => s.pushConst .put (.expr cur)
   | .reapply x, s => ((emit root cur x s).push .updateValue none).push .jumpTo (some cur)
   | .prefixApply sym x, s => (emit root cur x (s.pushConst .resolve (.sym sym))).push .apply none
   | .suffixApply x sym, s => (emit root cur x (s.pushConst .resolve (.sym sym))).push .apply none
